@@ -18,6 +18,7 @@ type Val struct {
 	Loc *Loc     // interior pointer (address of scalar field / element)
 	ArrRef *Term     // slice value created by slicing a local array: reference of that array (element access goes to its memory)
 	ArrT   types.Type
+	Prov *Prov     // the value was loaded from a guarded field (lock discipline)
 	GT  string   // ghost map type text (ghost values only)
 	GPkg *types.Package
 }
@@ -25,6 +26,12 @@ type Val struct {
 type Closure struct {
 	Fn   *ssa.Function
 	Bind []*Val
+}
+
+// Prov records that a map value was read from a mutex-guarded field of an object.
+type Prov struct {
+	Key  string
+	Base *Term
 }
 
 // Loc is an address that is not an object reference.
@@ -79,6 +86,7 @@ type Ctx struct {
 	trusted  map[string]bool // trusted/assumed contracts used
 	depth    int
 	pfSigs   map[string]string
+	embTags  int
 }
 
 type Cover struct {
@@ -103,6 +111,7 @@ type Obligation struct {
 	nAxiom  int
 	nGax    int
 	Where   string // source position of the site (informational)
+	TimeoutMs int  // per-obligation override (known findings are expected not to discharge)
 	Res     SolveResult
 	GetVals []string
 }
